@@ -177,9 +177,12 @@ def shrink(server, spec, cls, budget_s=150):
     used = json.dumps([small["prelude"], small["tasks"]])
     keep = {a["name"] for a in small.get("adhoc_classes", ())
             if ("adhoc.%s" % a["name"]) in used or ('"%s"' % a["name"]) in used}
-    for a in small.get("adhoc_classes", ()):       # ad-hoc bases of kept classes
-        if a["name"] in keep and str(a.get("base", "")).startswith("adhoc."):
-            keep.add(a["base"][6:])
+    for _ in range(3):                             # ad-hoc bases of kept classes
+        for a in small.get("adhoc_classes", ()):
+            if a["name"] in keep:
+                for b in [a.get("base") or ""] + list(a.get("bases") or ()):
+                    if b.startswith("adhoc."):
+                        keep.add(b[6:])
     small["adhoc_classes"] = [a for a in small.get("adhoc_classes", ())
                               if a["name"] in keep]
     if test(small):
